@@ -4,21 +4,24 @@
     the instantiation is explicit: [tb] stands for the tables of internal/frontend/parser/tables.go,
     [g] for the grammar of spec/gocc2.ebnf with production 0 = S! -> Grammar. *)
 From Coq Require Import List Arith ZArith Lia Bool.
-From Gocc Require Import LR.Parse LR.Validate LR.Trees LR.Eval LR.Sound LR.SoundTop LR.Complete.
+From Gocc Require Import LR.Parse LR.Validate LR.Trees LR.Eval LR.Sound LR.SoundTop LR.SoundGated LR.Complete.
 Import ListNotations.
 
 (** accepted => sentence of the spec, and the logged reductions are the productions of a parse tree of
-    the input in post-order (every production is logged: [p_act] is set for all of them) *)
+    the input in post-order (every production is logged: [p_act] is set for all of them).
+    The shipped tables DO shift the keyword "error" (it is an ordinary terminal of the spec), so the hypothesis of
+    C02's soundness theorem ([no_error_shift]) is false for them; what holds, and what the kernel re-checks on every
+    run, is that recovery is gated on canRecover and no state can recover (LR/SoundGated.v). *)
 Theorem C15_accept_implies_sentence_and_reductions : forall g tb an sem input fuel v,
-  valid_backward g tb an = true -> no_error_shift tb = true ->
+  valid_backward g tb an = true ->
+  t_gate tb = true -> forallb (fun r => negb (s_recover r)) (t_states tb) = true ->
   Forall (fun t => ttype t <> EOFT) input -> Forall (fun t => ttype t < nterms tb) input ->
   r_out (parse tb sem input fuel) = POk v ->
   exists t pr0 X0 c, nth_error g 0 = Some pr0 /\ rhs pr0 = [X0] /\ wt g X0 t input /\
                      eval tb sem t 0 [] = EOk v c (r_log (parse tb sem input fuel)).
 Proof.
-  intros g tb an sem input fuel v HV HN HI HR Hok.
-  pose proof (parse_sound_valid g tb an sem input fuel HV HN HI HR) as H.
-  unfold good_result in H. rewrite Hok in H. exact H.
+  intros g tb an sem input fuel v HV HG HN HI HR Hok.
+  exact (parse_sound_gated g tb an sem input HG HN fuel v HV HI HR Hok).
 Qed.
 Print Assumptions C15_accept_implies_sentence_and_reductions.
 
